@@ -203,8 +203,13 @@ def real_main(prop, workdir):
     binp = build(workdir)
     runs, budget = meta[tier]
     nworkers = int(os.environ.get("VERIF_WORKERS", "16"))
-    results, dead = run_workers(binp, prop, tier, seed, runs, budget, workdir, nworkers)
     known = load_known()
+    # known findings are reported from the run that met them, without minimising
+    # (only those without a detail filter: the worker cannot apply one)
+    ko = sorted(set(k["oracle"] for k in known if k.get("status") == "open" and k["property"] == prop and not k.get("detail_contains")))
+    extra = ["-sim.known", ",".join(ko)] if ko else []
+    extra += ["-sim.minfor", "40s" if tier == "quick" else "240s"]
+    results, dead = run_workers(binp, prop, tier, seed, runs, budget, workdir, nworkers, extra=extra)
     violations, knowns, troubles = [], [], []
     for (i, rc) in dead:
         kind, text = classify_dead(workdir, i)
